@@ -99,8 +99,11 @@ def check_one(ck, r, fn, m, d, failures, lay=0, label=''):
                         out['xyz'[j0 // 4]] = n['id']
         return out
     sw = [n['id'] for n in r.nodes if n['op'] == 'app' and n['n'] == 'sswu' and n['id'] in ocone]
-    okm = len(sw) == want and [r.nodes[s]['a'][0] for s in sw] == [n['id'] for n in h2f]
-    if not ck.ground(tag + '.sswu', 'SSWU is applied to u0%s, in this order' % (' and u1' if fn == 0 else ''), okm):
+    uids = [n['id'] for n in h2f]
+    okm = len(sw) == want and sorted(r.nodes[s]['a'][0] for s in sw) == sorted(uids)
+    if okm:
+        sw = sorted(sw, key=lambda s_: uids.index(r.nodes[s_]['a'][0]))     # Q0 = map(u0), Q1 = map(u1), whichever is computed first
+    if not ck.ground(tag + '.sswu', 'SSWU is applied to u0%s (each once; the order of the two independent evaluations is immaterial)' % (' and u1' if fn == 0 else ''), okm):
         failures.append(tag + '.sswu')
         return
     q = [sswu_coord_nodes(s) for s in sw]
